@@ -12,8 +12,18 @@ stores `Store`.  Side conditions, each guaranteed by the parser / compiler:
 keys are distinct).
 
 `valid t v` is C17's clean validation (`IsValidJson`: no error, no alarm),
-`filter t v` C17's `FilterJson` – what the run time applies to every resolved
-reference (`resolvePath` / `LazyArgumentMap.Path` in martian/core/resolve.go).
+`filter t v` C17's `FilterJson`.
+
+TWO run-time models (audit round 4, H1).  §3 is about the VALUE-LEVEL model
+`eval` / `project` followed by ONE `filter t` of the result: that is not the
+order in which the run time works, and its theorems are corollaries about
+values only.  §3b is about `evalT` / `pathVal` / `wholeRT`
+(Martian/TypingRun.lean), a transcription of `LazyArgumentMap.Path` /
+`resolvePath` / `LazyArgumentMap.filter` (martian/core/resolve.go): the
+destination type is peeled while the value is projected, `FilterJson` is applied
+leaf-wise, and a filter error IS the resolution error (`none`).  `pathVal` is
+compared with the real `Path` on every run (harness/c07_path.go).  The soundness
+statements the manifest cites are those of §3b.
 -/
 import Martian.Typing
 import Martian.TypingPipeline
@@ -21,6 +31,8 @@ import Martian.TypingStrict
 import Proofs.Typing
 import Proofs.TypingPipeline
 import Proofs.TypingStrict
+import Martian.TypingRun
+import Proofs.TypingRun
 
 namespace Props.C07
 open Martian.Json Martian.Types Martian.Typing
@@ -128,7 +140,9 @@ example :
       eval (Γ0 .single) ρ0 e = some (.obj [(ka, .num (.int 1000000)), (kb, .arr [.str kx, .null])]) :=
   ⟨by decide, by decide, by decide, by decide, rfl⟩
 
-/-- PARTIAL.  Full statement (false, see the two witnesses below):
+/-- VALUE-LEVEL corollary (NOT the run time's order of operations – see §3b,
+`validExp_sound_rt_partial`; and `filter_no_error_partial` for the error flag).
+PARTIAL.  Full statement (false, see the two witnesses below):
   `StoreOk Γ ρ → validExp Γ t e → ∃ v, eval Γ ρ e = some v ∧ valid t (filter t v).1`.
 Proved under `holeFree Γ t e`: no reference inside `e` is bound across one of
 the two assignability holes of C17 (`noHole`: a directory-like typed map from a
@@ -286,7 +300,157 @@ example :
     validCall (Γ0 .single) [(ka, .base .float), (kb, tA)]
       [(kb, .plain (.call cP [ko])), (ka, .plain (.int 1))] = true := by decide
 
+/-! ### 3b. soundness against the run time AS THE CODE DOES IT (`evalT`, `pathVal`) -/
+
+/-- the auditor's program (H1): `struct A(int a)`, `stage PROD(out map<A>[] xs)`,
+`stage CONS(in map[] ms)`, `call CONS(ms = PROD.xs.a)` -/
+private abbrev h1Γ : Env :=
+  { self := [], calls := [(cP, { name := cP, mode := .single, src := none, outs := .cons kx (.arr (.tmap tA)) .nil })] }
+private abbrev h1ρ : Store :=
+  { self := [], calls := [(cP, .obj [(kx, .arr [.obj [(km, .obj [(ka, .num (.int 1))])]])])] }
+
+/-- NEGATIVE WITNESS for the code BEFORE repair 85e056c (`peelMapDOld`: an
+untyped `map` destination stays in place below a typed map of the source): the
+binding is accepted and `holeFree`, the store conforms, and `Path` fails (every
+projected int is filtered as a map: "cannot filter int to map").  Reproduced on
+the real run time (Tier A, corpus/C07/projection_through_typed_map_into_untyped_map_array.mro,
+and the `C07.path` differential) before the repair; with the repaired code the
+same binding delivers `[{"m": 1}]`. -/
+theorem h1_untyped_map_dest_old_code :
+    let t : Ty := .arr (.base .map)
+    let e : Exp := .call cP [kx, ka]
+    validExp h1Γ t e = true ∧ holeFree h1Γ t e = true ∧
+    refType h1Γ e = some (.arr (.tmap (.base .int))) ∧
+    valid (.struct cP (.cons kx (.arr (.tmap tA)) .nil)) (.obj [(kx, .arr [.obj [(km, .obj [(ka, .num (.int 1))])]])]) = true ∧
+    pathValG peelMapDOld (some t) (.struct cP (.cons kx (.arr (.tmap tA)) .nil))
+      (.obj [(kx, .arr [.obj [(km, .obj [(ka, .num (.int 1))])]])]) [kx, ka] = none ∧
+    evalT h1Γ h1ρ t e = some (.arr [.obj [(km, .num (.int 1))]]) :=
+  ⟨by decide, by decide, rfl, by decide, rfl, rfl⟩
+
+/-- `LazyArgumentMap.Path` is sound for the binding checker (PARTIAL: `noHole`,
+the two C17 holes): for a conforming value of the source type, a non-empty path
+whose compile-time type `s` is assignable to the destination type `t`, the walk
+with the destination peeled in lock-step SUCCEEDS (no "cannot filter", no
+missing key) and delivers a valid value of `t`. -/
+theorem path_sound_partial (src : Ty) (v : J) (p : List Bytes) (s t : Ty) (hp : p ≠ [])
+    (hv : valid src v = true) (hf : fieldType src p = some s) (ht : t.wf = true)
+    (ha : assignable t s = true) (hn : noHole t s = true) :
+    ∃ w, pathVal (some t) src v p = some w ∧ valid t w = true := by
+  obtain ⟨w, hw, hs⟩ := pathVal_sound src v p s t hp (shape_of_valid src v hv) hf ht ha hn
+  exact ⟨w, hw, valid_of_shape _ _ hs⟩
+
+/-- M1: filtering a conforming value to an assignable type reports NO error –
+neither fatal nor soft (PARTIAL: `noHole`) -/
+theorem filter_no_error_partial (t s : Ty) (v : J) (ht : t.wf = true) (hv : valid s v = true)
+    (ha : assignable t s = true) (hn : noHole t s = true) :
+    (filter t v).2 = .ok ∧ valid t (filter t v).1 = true :=
+  ⟨filter_ok_of_assignable t ht s v (shape_of_valid s v hv) ha hn,
+   valid_of_shape _ _ (shape_filter_of_assignable t ht s v (shape_of_valid s v hv) ha hn)⟩
+
+/-- PARTIAL (hypothesis `holeFree`; the full statement is false: `f9_binding_witness`,
+`f10_binding_witness`).  If the compiler accepts `e` for a parameter of type `t`
+and every pipeline input / every output of the calls made so far conforms to
+its declared type, then the run time – literals element-wise, references through
+`Path` with the destination peeled, leaf-wise `FilterJson` – resolves `e` WITHOUT
+ERROR to a value that validates cleanly against `t`. -/
+theorem validExp_sound_rt_partial (Γ : Env) (ρ : Store) (t : Ty) (e : Exp)
+    (hρ : StoreOk Γ ρ) (ht : t.wf = true) (he : e.wf = true)
+    (hv : validExp Γ t e = true) (hh : holeFree Γ t e = true) :
+    ∃ v, evalT Γ ρ t e = some v ∧ valid t v = true :=
+  validExp_sound_rt Γ ρ hρ t ht e he hv hh
+
+/-- non-vacuity: the struct literal with a coercion, a projection through an
+array and a reference into a call of the §3 example; and the H1 binding -/
+example :
+    let t : Ty := .struct [0x54] (.cons ka (.base .float) (.cons kb (.arr (.arr (.base .file))) (.cons kx tA .nil)))
+    let e : Exp := .map true (.cons ka (.int 3) (.cons kb (.self kx [kb]) (.cons kx (.call cP [ko]) .nil)))
+    validExp (Γ0 .single) t e = true ∧ holeFree (Γ0 .single) t e = true ∧
+    evalT (Γ0 .single) ρ0 t e = some (.obj [(ka, .num (.int 3)), (kb, .arr [.arr [.str kx], .null]),
+      (kx, .obj [(ka, .num (.int 1))])]) := ⟨by decide, by decide, rfl⟩
+
+/-- `x = split REF` (PARTIAL: `noHole` between the type of the whole collection
+and `t[]` / `map<t>`): the collection is resolved without error and every element
+handed to a fork conforms to the parameter type. -/
+theorem split_ref_sound_rt_partial (Γ : Env) (ρ : Store) (t : Ty) (e : Exp)
+    (hρ : StoreOk Γ ρ) (ht : t.wf = true) (he : ∃ id p, e = .self id p ∨ e = .call id p)
+    (hv : validBind Γ t (.split e) = true) (hh : bindHoleFreeT Γ t (.split e) = true) :
+    ∃ vs, deliveredT Γ ρ t (.split e) = some vs ∧ ∀ v ∈ vs, valid t v = true :=
+  split_ref_sound_rt Γ ρ hρ t ht e he hv hh
+
+example :
+    validBind (Γ0 .single) tA (.split (.self kx [])) = true ∧ bindHoleFreeT (Γ0 .single) tA (.split (.self kx [])) = true ∧
+    deliveredT (Γ0 .single) ρ0 tA (.split (.self kx [])) = some [.obj [(ka, .num (.int 1))], .null] ∧
+    validBind h1Γ (.base .map) (.split (.call cP [kx, ka])) = true ∧
+    deliveredT h1Γ h1ρ (.base .map) (.split (.call cP [kx, ka])) = some [.obj [(km, .num (.int 1))]] :=
+  ⟨by decide, by decide, rfl, by decide, rfl⟩
+
+/-! ### 3c. what `StoreOk` demands of MAPPED calls (M3) -/
+
+/-- stores for an array-called and a map-called producer conform (non-vacuity of
+`StoreOk` beyond single calls) -/
+theorem sample_store_ok_mapped :
+    StoreOk (Γ0 .arr) { self := ρ0.self, calls := [(cP, .arr [.obj [(ko, vW), (km, .obj [])], .null])] } ∧
+    StoreOk (Γ0 .map) { self := ρ0.self, calls := [(cP, .obj [(ka, .obj [(ko, vW), (km, .null)])])] } := by
+  refine ⟨⟨?_, ?_⟩, ⟨?_, ?_⟩⟩
+  · intro id t h
+    simp only [List.lookup] at h
+    split at h
+    · cases h
+      exact ⟨.arr [vW, .null], by simp [List.lookup, *], by decide⟩
+    · split at h
+      · cases h
+        exact ⟨.obj [(ka, vW)], by simp [List.lookup, *], by decide⟩
+      · cases h
+  · intro id sig h
+    simp only [List.lookup] at h
+    split at h
+    · cases h
+      exact ⟨.arr [.obj [(ko, vW), (km, .obj [])], .null], by simp [List.lookup, *], by decide⟩
+    · cases h
+  · intro id t h
+    simp only [List.lookup] at h
+    split at h
+    · cases h
+      exact ⟨.arr [vW, .null], by simp [List.lookup, *], by decide⟩
+    · split at h
+      · cases h
+        exact ⟨.obj [(ka, vW)], by simp [List.lookup, *], by decide⟩
+      · cases h
+  · intro id sig h
+    simp only [List.lookup] at h
+    split at h
+    · cases h
+      exact ⟨.obj [(ka, .obj [(ko, vW), (km, .null)])], by simp [List.lookup, *], by decide⟩
+    · cases h
+
+/-- NEGATIVE WITNESS for "stage outputs conform ⇒ StoreOk" on a MAP-called stage
+with a file-typed output: the keys of the merged value come from the split
+source (here `"a/b"`, legal in a `map<int>`), every fork's outputs conform to the
+stage's declared output struct, and still the merged `map<struct>` is not a
+valid value (the key is not a legal file name) – `StoreOk` is strictly more than
+the property's premise there; nothing in the compiler enforces it. -/
+theorem storeOk_map_call_key_witness :
+    let outs : Fields := .cons ko (.base .file) .nil
+    let sig : CallSig := { name := cP, mode := .map, src := some (.map none), outs := outs }
+    valid sig.struct (.obj [(ko, .str kx)]) = true ∧
+    valid (.tmap (.base .int)) (.obj [(kslash, .num (.int 1))]) = true ∧
+    valid sig.whole (.obj [(kslash, .obj [(ko, .str kx)])]) = false := by decide
+
+/-- `ref_iff` for references into calls -/
+theorem ref_iff_call (Γ : Env) (t : Ty) (id : Bytes) (p : List Bytes) (s : Ty)
+    (hr : refType Γ (.call id p) = some s) :
+    validExp Γ t (.call id p) = (shapeOk t s && assignable t s) := by
+  cases t with
+  | base b => simp [validExp, validBase, refOk, hr]
+  | _ => simp [validExp, refOk, hr]
+
 /-! ### 4. the rejection direction: what an accepted literal / reference must look like -/
+
+/-! (Most of §4, and `mapcall_dim`, `checkCalls_cons_iff`, `validPipeline_iff`, `validPipelineU_iff`,
+`unused_input_iff`, `validTop_iff`, `modsOk_iff`, `stageRetain_iff`, `pipeRetain_iff`,
+`wildcard_expansion_iff`, `wildcard_members_ref_iff` are DEFINITIONAL UNFOLDINGS: documentation of the
+model – "the model accepts iff the model's condition holds" –, not guarantees about the code.  Their
+weight is the per-run differential of the model against the real compiler.) -/
 
 /-- string literals are accepted exactly for `string`, `file`, `path` and user file types -/
 theorem str_literal_iff (Γ : Env) (t : Ty) (s : Bytes) :
@@ -719,12 +883,13 @@ theorem disabled_sound (Γ : Env) (ρ : Store) (callee : Callee) (binds : List (
   have hv := ((modsOk_iff Γ callee binds w m).mp hm).2.1 e hd
   exact plain_sound Γ ρ hρ (.base .bool) (by simp [Ty.wf]) e he hv (by simp [holeFree, refHoleFree]; split <;> simp [noHole])
 
-/-- PARTIAL.  Intended statement (what the run time relies on: every other
-stage of the pipeline waits for a preflight stage, so a preflight call must not
-depend on any other call): "no binding of an accepted preflight call contains a
-reference to another call".  FALSE – see `preflight_nested_ref_witness`.
-Proved: what `Modifiers.compile` does enforce – no binding IS such a reference,
-and the callee has no outputs. -/
+/-- PARTIAL.  Intended compile-time statement: "no binding of an accepted
+preflight call contains a reference to another call".  FALSE of the compiler –
+see `preflight_nested_ref_witness` – and it cannot be made true: the pinned
+suite contains such a call.  Proved: what `Modifiers.compile` does enforce – no
+binding IS such a reference, and the callee has no outputs.  The run time no
+longer relies on the intended statement (repair 937256c: the stages a preflight
+stage depends on do not wait for it; checked in Tier A every run). -/
 theorem preflight_isolated_partial (Γ : Env) (callee : Callee) (binds : List (Bytes × Bind))
     (w : Option Wild) (m : Mods) (hm : modsOk Γ callee binds w m = true)
     (hp : effective m.kwPreflight (usingVal 1 m.usings) = true) :
@@ -745,11 +910,11 @@ theorem preflight_isolated_partial (Γ : Env) (callee : Callee) (binds : List (B
     have := h7.1.2
     simp [hw, wildIsCallRef, isCallRef] at this
 
-/-- negative witness of the intended preflight statement: `call preflight
-PRE(xs = [PROD.a])` is accepted (the reference sits inside an array literal).
-Replayed on the real compiler every run (known finding
-C07:preflight-nested-call-ref; observed at run time: mrp dies with a stack
-overflow in the prenode cycle). -/
+/-- negative witness of the intended compile-time preflight statement: `call
+preflight PRE(xs = [PROD.a])` is accepted (the reference sits inside an array
+literal).  Replayed on the real code every run: accepted by the compiler, and
+the pipestance runs PROD, then PRE, then everything else, to completion (before
+repair 937256c mrp died with a stack overflow in the prenode cycle). -/
 theorem preflight_nested_ref_witness :
     let prod : CallSig := { name := cP, mode := .single, src := none, outs := .cons ka (.base .int) .nil }
     let Γ : Env := { self := [(ka, .base .int)], calls := [(cP, prod)] }
@@ -938,5 +1103,184 @@ example :
     let inner : Pipeline := { name := kx, ins := [(ka, .base .int)], outs := .cons ko tW .nil, calls := [{ id := cP, callee := stP, binds := [], wild := none, mods := noMods }], ret := [(ko, .plain (.call cP [ko]))], retWild := none, retain := [.call cP [ko, kb]] }
     let outer : Pipeline := { name := km, ins := [], outs := .cons kb (.arr (.arr (.base .file))) .nil, calls := [{ id := kx, callee := inner.callee, binds := [(ka, .split (.arr (.cons (.int 1) (.cons (.int 2) .nil))))], wild := none, mods := noMods }], ret := [(kb, .plain (.call kx [ko, kb]))], retWild := none, retain := [] }
     validPipeline inner = true ∧ validPipeline outer = true := by decide
+
+/-! ### 10. unused inputs and the top-level call statement -/
+
+/-- with the `UnusedInputError` check: accepted exactly when accepted without
+it and every input is used by some call binding, modifier or return binding -/
+theorem validPipelineU_iff (p : Pipeline) :
+    validPipelineU p = true ↔ validPipeline p = true ∧ unusedInputs p = [] := by
+  simp only [validPipelineU, checkPipelineU, validPipeline, checkPipeline]
+  cases hc : checkCalls { self := p.ins, calls := [] } p.calls with
+  | none => simp
+  | some Γ =>
+    cases hu : unusedInputs p with
+    | nil =>
+      cases hr : checkReturn Γ p.outs p.ret p.retWild with
+      | false => simp [hr]
+      | true =>
+        cases ht : pipeRetainOk Γ p.retain with
+        | false => simp [hr, ht]
+        | true => simp [hr, ht]
+    | cons a r =>
+      cases hr : checkReturn Γ p.outs p.ret p.retWild <;> simp [hr]
+
+/-- an input is reported unused exactly when it is declared and no binding of a
+call, no `disabled` modifier and no return binding refers to it (at any depth of
+a literal, under `split`, or through the expansion of a wildcard) -/
+theorem unused_input_iff (p : Pipeline) (x : Bytes) :
+    x ∈ unusedInputs p ↔ x ∈ p.ins.map Prod.fst ∧ x ∉ usedInputs p := by
+  simp [unusedInputs, List.mem_filter]
+
+/-- a reference `self.x…` anywhere inside a written binding of a call uses `x`
+(with or without a wildcard after the written bindings) -/
+theorem binding_uses_input (p : Pipeline) (c : CallStm) (k : Bytes) (b : Bind) (x : Bytes)
+    (hc : c ∈ p.calls) (hb : (k, b) ∈ c.binds) (hx : x ∈ b.selfIds) :
+    x ∈ usedInputs p := by
+  simp only [usedInputs, List.mem_append, List.mem_flatMap]
+  refine Or.inl ⟨c, hc, Or.inl ?_⟩
+  simp only [usedByBinds, List.mem_append, List.mem_flatMap]
+  refine Or.inl ⟨(k, b), ?_, hx⟩
+  cases hw : c.wild with
+  | none => simpa [allBinds] using hb
+  | some w =>
+    simp only [allBinds]
+    cases expandWild { self := p.ins, calls := [] } c.callee.params w with
+    | none => simpa using hb
+    | some ex => simpa using Or.inl hb
+
+example :
+    let st : Callee := { name := cP, isStage := true, params := [(ka, .base .int)], outs := .nil }
+    let mk (e : Exp) : Pipeline := { name := kx, ins := [(ka, .base .int), (kb, .base .int)], outs := .nil, calls := [{ id := cP, callee := st, binds := [(ka, .plain e)], wild := none, mods := noMods }], ret := [], retWild := none, retain := [] }
+    unusedInputs (mk (.self ka [])) = [kb] ∧ validPipeline (mk (.self ka [])) = true ∧
+      validPipelineU (mk (.self ka [])) = false := by decide
+
+/-- exact acceptance condition of a top-level `call` statement -/
+theorem validTop_iff (c : CallStm) :
+    validTop c = true ↔
+      c.wild = none ∧ modsOk emptyEnv c.callee c.binds none c.mods = true ∧
+      (c.mods.usings ≠ [] → usingDisabled c.mods.usings = none ∧
+        effective c.mods.kwPreflight (usingVal 1 c.mods.usings) = false) ∧
+      validCall emptyEnv c.callee.params c.binds = true := by
+  simp only [validTop, checkTop, validCall]
+  cases hw : c.wild <;> cases hm : modsOk emptyEnv c.callee c.binds none c.mods <;>
+    cases hu : c.mods.usings <;>
+    cases hd : usingDisabled c.mods.usings <;>
+    cases hp : effective c.mods.kwPreflight (usingVal 1 c.mods.usings) <;> simp_all
+
+/-- outside a pipeline nothing resolves: a top-level call with a binding that is
+a reference (plain or split) is rejected -/
+theorem top_reference_rejected (c : CallStm) (x : Bytes) (e : Exp)
+    (he : ∃ id p, e = .self id p ∨ e = .call id p)
+    (hb : (x, Bind.plain e) ∈ c.binds ∨ (x, Bind.split e) ∈ c.binds) : validTop c = false := by
+  cases hv : validTop c with
+  | false => rfl
+  | true =>
+    have hc := ((validTop_iff c).mp hv).2.2.2
+    have hnone : ∀ e', refType emptyEnv e' = none := by
+      intro e'; cases e' <;> simp [refType, emptyEnv]
+    have hrej := unresolved_ref_rejected emptyEnv
+    rcases hb with hb | hb
+    · obtain ⟨t, _, hvb⟩ := checkCall_known emptyEnv c.callee.params c.binds hc x _ hb
+      simp only [validBind, Bool.or_eq_true] at hvb
+      rcases hvb with h | h
+      · rw [(hrej t e he (hnone e)).1] at h; cases h
+      · obtain ⟨id, p, rfl | rfl⟩ := he
+        · simp [defaultRewrite] at h
+        · cases p with
+          | nil => simp [defaultRewrite, hnone] at h
+          | cons o p => simp [defaultRewrite] at h
+    · obtain ⟨t, _, hvb⟩ := checkCall_known emptyEnv c.callee.params c.binds hc x _ hb
+      rw [(hrej t e he (hnone e)).2] at hvb; cases hvb
+
+/-- SOUNDNESS of the top-level call, FULL strength: no store and no hole
+hypothesis – every parameter of the called pipeline receives, through its one
+binding, only values that validate against its declared type. -/
+theorem top_call_sound (c : CallStm) (ρ : Store)
+    (hp : ∀ x t, c.callee.params.lookup x = some t → t.wf = true) (h : validTop c = true) :
+    ∀ x t, c.callee.params.lookup x = some t → ∃ b, c.binds.lookup x = some b ∧
+      (b.wf = true → ∃ vs, delivered emptyEnv ρ t b = some vs ∧ ∀ v ∈ vs, valid t (filter t v).1 = true) := by
+  have hc := ((validTop_iff c).mp h).2.2.2
+  have hρ : StoreOk emptyEnv ρ := ⟨by intro id t h; simp [emptyEnv] at h, by intro id s h; simp [emptyEnv] at h⟩
+  obtain ⟨bs, hbs, hall⟩ := call_sound_partial emptyEnv ρ c.callee.params c.binds none hρ hp
+    (by simpa [validCallW, checkCallW, allBinds, validCall] using hc)
+  simp only [allBinds, Option.some.injEq] at hbs
+  subst hbs
+  intro x t hx
+  obtain ⟨b, hl, hd⟩ := hall x t hx
+  exact ⟨b, hl, fun hw => hd hw (bindHoleFree_emptyEnv t b)⟩
+
+example :
+    let pl : Callee := { name := cP, isStage := false, params := [(ka, .base .float), (kb, tA)], outs := .nil }
+    let c (e : Exp) : CallStm := { id := cP, callee := pl, binds := [(ka, .plain (.int 1)), (kb, .plain e)], wild := none, mods := noMods }
+    validTop (c (.map false (.cons ka (.int 2) .nil))) = true ∧ validTop (c (.self kx [])) = false ∧
+      validTop { c .null with mods := { noMods with usings := [.pre true] } } = false ∧
+      validTop { c .null with wild := some .self } = false := by decide
+
+/-! ### 11. calls and return statements against the run time as the code does it -/
+
+/-- SOUNDNESS of a whole call against the run time (wildcard included; PARTIAL:
+`bindHoleFreeT`): every declared parameter receives, through its one binding,
+only values that the run time resolves without error and that validate cleanly
+against the parameter's type. -/
+theorem call_sound_rt_partial (Γ : Env) (ρ : Store) (params : List (Bytes × Ty))
+    (binds : List (Bytes × Bind)) (w : Option Wild)
+    (hρ : StoreOk Γ ρ) (hp : ∀ x t, params.lookup x = some t → t.wf = true)
+    (h : validCallW Γ params binds w = true) :
+    ∃ bs, allBinds Γ params binds w = some bs ∧
+      ∀ x t, params.lookup x = some t → ∃ b, bs.lookup x = some b ∧
+        (b.wf = true → bindHoleFreeT Γ t b = true →
+          ∃ vs, deliveredT Γ ρ t b = some vs ∧ ∀ v ∈ vs, valid t v = true) := by
+  obtain ⟨bs, hbs, _, hall, _⟩ := validCallW_complete_args Γ params binds w h
+  refine ⟨bs, hbs, fun x t hx => ?_⟩
+  obtain ⟨b, hl, hv⟩ := hall x t hx
+  exact ⟨b, hl, fun hw hh => bind_sound_rt Γ ρ hρ t (hp x t hx) b hw hv hh⟩
+
+example :
+    let ps : List (Bytes × Ty) := [(ka, .base .float), (kb, .arr (.base .file))]
+    validCallW (Γ0 .single) ps [] (some (.ref (.call cP [ko]))) = true ∧
+    bindHoleFreeT (Γ0 .single) (.base .float) (.plain (.call cP [ko, ka])) = true ∧
+    deliveredT (Γ0 .single) ρ0 (.base .float) (.plain (.call cP [ko, ka])) = some [.num (.int 1)] := by
+  refine ⟨by decide, by decide, rfl⟩
+
+/-- RETURN BINDINGS against the run time (PARTIAL: `holeFree` at every return
+binding).  If the values of the pipeline's inputs and of the calls inside it
+conform, the struct of outputs an accepted pipeline delivers – every declared
+output resolved at its declared type – is produced without error and is a valid
+value of the pipeline's output struct type.  This is ONE invocation of the
+pipeline; that the environments `checkCalls` builds are conforming stores for
+every call of every nesting level is NOT a theorem (see the manifest note). -/
+theorem return_sound_rt_partial (Γ : Env) (ρ : Store) (name : Bytes) (outs : Fields)
+    (ret : List (Bytes × Bind)) (w : Option Wild)
+    (hρ : StoreOk Γ ρ) (hwf : (Ty.struct name outs).wf = true)
+    (h : checkReturn Γ outs ret w = true) :
+    ∃ bs, allBinds Γ outs.toList ret w = some bs ∧
+      ((∀ x e, (x, Bind.plain e) ∈ bs → e.wf = true) →
+       (∀ x b, (x, b) ∈ bs → ∃ e, b = .plain e) →
+       (∀ x t e, (x, t) ∈ outs.toList → bs.lookup x = some (.plain e) → holeFree Γ t (bindExp Γ t e) = true) →
+        ∃ vs, retValueT Γ ρ bs outs = some vs ∧ valid (.struct name outs) (.obj vs) = true) := by
+  obtain ⟨bs, hbs, _, hall, _⟩ := return_complete Γ outs ret w h
+  refine ⟨bs, hbs, fun hew hplain hhf => ?_⟩
+  have hwf' := Fields.wf_iff.mp (by simpa [Ty.wf] using hwf)
+  obtain ⟨vs, hvs, hkeys, hvals⟩ := retValueT_sound Γ ρ hρ bs outs (by
+    intro k t hkt
+    obtain ⟨b, hl, hv⟩ := hall k t (lookup_of_mem_nodup hwf'.1 hkt)
+    obtain ⟨e, rfl⟩ := hplain k b (lookup_mem hl)
+    exact ⟨hwf'.2 k t hkt, e, hl, hew k e (lookup_mem hl), hv, hhf k t e hkt hl⟩)
+  refine ⟨vs, hvs, ?_⟩
+  simp only [valid, check, beq_iff_eq, checkFields_ok_iff]
+  intro k t hkt
+  obtain ⟨v, hmem, hv⟩ := hvals k t hkt
+  exact ⟨v, getKey_of_mem_nodup (by rw [hkeys]; exact hwf'.1) hmem, by simpa [valid] using hv⟩
+
+/-- non-vacuity of `return_sound_rt_partial`: a pipeline returning `r = P.o.b`
+(`file[]`) and `a = P.o` narrowed to `struct A(int a)` from the sample store -/
+example :
+    let outs : Fields := .cons kb (.arr (.base .file)) (.cons ka tA .nil)
+    let ret : List (Bytes × Bind) := [(kb, .plain (.call cP [ko, kb])), (ka, .plain (.call cP [ko]))]
+    checkReturn (Γ0 .single) outs ret none = true ∧ (Ty.struct kx outs).wf = true ∧
+    retValueT (Γ0 .single) ρ0 ret outs = some [(kb, .arr [.str kx]), (ka, .obj [(ka, .num (.int 1))])] ∧
+    valid (.struct kx outs) (.obj [(kb, .arr [.str kx]), (ka, .obj [(ka, .num (.int 1))])]) = true :=
+  ⟨by decide, by decide, rfl, by decide⟩
 
 end Props.C07
